@@ -853,6 +853,7 @@ func (ex *Exec) siteRecv(fr *Frame, st *State, ch *Term, pos token.Pos) {
 		if s.Occ != 0 && s.Occ != fr.siteOcc["recv"] {
 			continue
 		}
+		ex.sitesHit[fmt.Sprintf("spec:%s#%d", s.Callee, s.Occ)] = true
 		env := ex.localEnv(fr, st)
 		env["ch"] = SV{V: TV{ch}}
 		ctx := &EvalCtx{ex: ex, st: st, old: ex.entry, env: env, pkg: ex.contract.Pkg, fnPos: ex.fn.Pos()}
